@@ -31,7 +31,8 @@ CLAIMS = {
              "schedules incl. every interleaving of retiring workers and the replace thread: call k of the history is matched with the k-th "
              "result list and each is exactly right (nothing leaks between calls); between calls nothing is in flight; no stop token of the replace "
              "thread is ever left behind and the thread is never left stopped; every worker that left its loop is pending replacement exactly once; "
-             "with work pending and room for results some worker or the replace thread can always move (the pool never runs out of workers). "
+             "with work pending and room for results some worker or the replace thread can always move (the pool never runs out of workers); "
+             "between calls the pool is at full strength (every slot holds a worker that has not left its loop, also after retirements with the very last chunk). "
              "Tied to /repo by trace acceptance over multi-call histories with quotas 1..3.",
              note=POOLNOTE,
              tech="Coq proof: history-indexed invariant (Forall2 over completed calls), replace-token accounting, NoDup pending-replacement invariant, progress lemma; trace-acceptance correspondence under a controlled scheduler",
